@@ -583,6 +583,12 @@ class Interp:
         if ty is TBool:
             b = self.truth(v)
             return z3.BoolVal(b) if isinstance(b, bool) else b
+        if isinstance(ty, TStruct) and ty.name == "OptInt":
+            if v is None:
+                return ty.make(z3.BoolVal(True), z3.IntVal(0))
+            if isinstance(v, SV) and v.ty == ty:
+                return v.t
+            return ty.make(z3.BoolVal(False), I(v))
         if isinstance(ty, (TStruct, TOpaque)):
             if isinstance(v, SV) and v.ty == ty:
                 return v.t
@@ -621,6 +627,13 @@ class Interp:
             return tuple(self.lift(ty.get(term, f), ft) for f, ft in ty.fields)
         if isinstance(ty, TStruct) and ty.name == "Slice":
             return SliceVal(SV(ty.get(term, "lo"), TInt), SV(ty.get(term, "hi"), TInt), None)
+        if isinstance(ty, TStruct) and ty.name == "OptInt":
+            # Optional[int] stored in a symbolic container: reading it splits the path on "is None"
+            if self.term_mode:
+                raise Unsupported("optional value read under a bound variable")
+            if self.ctx.branch(z3.simplify(ty.get(term, "isnone")), "optnone"):
+                return None
+            return simp(SV(ty.get(term, "val"), TInt))
         return simp(SV(term, ty))
 
     def type_of(self, v):
@@ -930,6 +943,8 @@ class Interp:
         ordinal = self.loop_ordinal(frame.func, s)
         spec = self.loop_specs.get((frame.func.qualname, ordinal))
         it = self.eval_expr(s.iter, env)
+        if isinstance(it, SymDict):
+            it = KeyIter(it.has, it.kty, it.val, it.vty, "keys")  # iterating a dict iterates its keys
         items = self.bm.concrete_iter(self, it)
         if items is not None:
             for x in items:
